@@ -97,7 +97,14 @@ def gen_of(owner):
 
 
 GENERATIONS = 3
-JWKS_URI = "https://client_d.example.com/jwks.json"
+JWKS_URI = "https://client_d.example.com/jwks/%d.json"
+
+
+def jwks_uri_of(index, spec):
+    """the URI at which the index-th registration of a history publishes its key document: its OWN one (a refused or
+    replaced by-reference registration then cannot change what the registration in force refers to), unless the spec
+    names the document of another step ("doc": k - the deliberate republication at a URI used before)"""
+    return JWKS_URI % spec.get("doc", index)
 
 
 def keynum(owner, kty):
@@ -477,6 +484,7 @@ class RegWorld(World):
     def register_step(self, index, spec):
         """the index-th registration under the id client_d.  spec: {"alg": request_object_signing_alg | None,
         "keys": [(key generation, slot)], "via": "jwks" | "jwks_uri" | None (no key material in the request),
+        "doc": k (by jwks_uri only: publish at the document URI of step k instead of this step's own),
         "refuse": True (a redirect URI with a fragment: the provider refuses)}.  The first one goes through
         parse_request + process_request (new id), the later ones process_request(..., new_id=False).
         Returns what register() returns plus "jar": the key jar entry of the id afterwards, "record_before/after"."""
@@ -486,8 +494,8 @@ class RegWorld(World):
         if spec.get("via") == "jwks":
             req["jwks"] = {"keys": keys}
         elif spec.get("via") == "jwks_uri":
-            self.published[JWKS_URI] = json.dumps({"keys": keys})
-            req["jwks_uri"] = JWKS_URI
+            self.published[jwks_uri_of(index, spec)] = json.dumps({"keys": keys})
+            req["jwks_uri"] = jwks_uri_of(index, spec)
         if spec.get("alg") is not None:
             req[ROSA] = spec["alg"]
         again = index > 0 and DYN in self.ctx.cdb
